@@ -130,6 +130,9 @@ class PairTabulationFactory(object):
     # logger = logging.getLogger(__name__).getChild("PairTabulationFactory.create_tabulation")
     r_cutoff = self.extract_cutoffs(cp)
 
+    # [Species] is only used by EAM targets: its keys and values are checked for every model
+    cp.species
+
     # Get pair potentials
     potential_form_registry = Potential_Form_Registry(cp, register_standard = True, register_pymath_functions = True)
     potential_form_registry.check_expressions()
